@@ -27,8 +27,18 @@ import (
 //
 // and, for every property, no panic and no operation that never returns.
 func apiSeq(prop, hprog string, first byte, maxLen, bound int) *explore.Scenario {
+	return apiSeqL(prop, hprog, first, maxLen, bound, false)
+}
+
+// loose: also the repeated uses an application may make - CloseSend again after CloseSend, Trailer() at any
+// time and any number of times (what an early Trailer() returns is not judged)
+func apiSeqL(prop, hprog string, first byte, maxLen, bound int, loose bool) *explore.Scenario {
+	name := fmt.Sprintf("%s/api-seq/handler=%s/first=%c/len<=%d/d=%d", prop, hprog, first, maxLen, bound)
+	if loose {
+		name += "/repeated-ops"
+	}
 	return &explore.Scenario{
-		Name:   fmt.Sprintf("%s/api-seq/handler=%s/first=%c/len<=%d/d=%d", prop, hprog, first, maxLen, bound),
+		Name:   name,
 		Family: prop + "/api-seq", Prop: prop, Bound: bound, MaxExecs: 3000000,
 		Run: func() {
 			w := env.NewWorld()
@@ -76,6 +86,14 @@ func apiSeq(prop, hprog string, first byte, maxLen, bound int) *explore.Scenario
 						if recvFailed {
 							alphabet += "T"
 						}
+						if loose {
+							if r.CClosed || closeTried {
+								alphabet = "SC" + alphabet // CloseSend again; SendMsg after CloseSend (it may be refused, it must return)
+							}
+							if !recvFailed {
+								alphabet += "T" // Trailer() before the end
+							}
+						}
 						c := vsched.Choose(len(alphabet) + 1)
 						if c == len(alphabet) {
 							break
@@ -117,6 +135,9 @@ func apiSeq(prop, hprog string, first byte, maxLen, bound int) *explore.Scenario
 			}
 			if r.CErr == io.EOF && (!r.HReturned || r.HRet != nil || !eqStrs(r.CRecv, r.HSent)) && !cancelled {
 				vsched.Fail("C02/api-seq|eof-too-early", "after ops %s: caller saw io.EOF but the handler had not finished successfully / messages are missing: %s", seq, r.Summary())
+			}
+			if loose && !cancelled && r.HReturned && r.HRet == nil && r.CErr != nil && r.CErr != io.EOF {
+				vsched.Fail("C02/api-seq|success-as-failure", "after ops %s: the handler returned nil, the caller (who never cancelled) saw %s", seq, env.ErrStr(r.CErr))
 			}
 			if herr != nil && r.CErr == io.EOF {
 				vsched.Fail("C03/api-seq|failure-as-success", "after ops %s: handler failed but the caller saw io.EOF", seq)
@@ -162,6 +183,12 @@ func apiSeqs(prop, tier string) []*explore.Scenario {
 		}
 	}
 	out = append(out, apiSeq(prop, "echo", 'S', 3, 1), apiSeq(prop, "retearly", 'S', 3, 1), apiSeq(prop, "burst2", 'R', 3, 1))
+	if prop != "C06" { // (what a second CloseSend puts on the wire is the application's doing: not judged by the wire automaton)
+		for _, h := range []string{"echo", "collect", "burst2"} {
+			out = append(out, apiSeqL(prop, h, 'S', maxLen, 0, true), apiSeqL(prop, h, 'C', maxLen, 0, true))
+		}
+		out = append(out, apiSeqL(prop, "echo", 'C', 3, 1, true))
+	}
 	return out
 }
 
